@@ -35,3 +35,7 @@ META = {
 
 def run(ctx):
     c05.run(ctx, "C13", focus="C13")
+
+
+def replay(ctx, rec):
+    c05.replay(ctx, rec)
